@@ -6,6 +6,15 @@ package bandersnatch
 
 //@ pkginv CurveParams.A == CURVE_A && CurveParams.D == CURVE_D
 
+// IdentityExt is initialised as PointExtendedFromProj(&Identity) with Identity = (0:1:1): the neutral element in extended
+// coordinates (the initialiser itself is covered by the contract of PointExtendedFromProj below; nothing writes the variable)
+//@ pkginv IdentityExt.X == fp_zero && IdentityExt.Y == fp_one && IdentityExt.Z == fp_one && IdentityExt.T == fp_zero
+
+//@ func PointExtendedFromProj
+//@ props C05
+//@ prelude field
+//@ ensures result.X == p.X && result.Y == p.Y && result.Z == p.Z && result.T == p.X * p.Y * fp_inv(p.Z)
+
 //@ func computeY
 //@ props C06 C17
 //@ prelude field curve
